@@ -44,6 +44,8 @@ InitNode == [cells |-> [k \in Keys |-> NoCell],
 Change(a, v, s) == [key |-> txlog[a][v][s + 1].key, cv |-> txlog[a][v][s + 1].cv, val |-> txlog[a][v][s + 1].val,
                     site |-> a, dbv |-> v, seq |-> s]
 LastSeq(a, v) == Len(txlog[a][v]) - 1
+(* the sequence numbers of (a, v) that carry a change *)
+SeqsOf(a, v) == {s \in 0..LastSeq(a, v) : txlog[a][v][s + 1].key # 0}
 
 -----------------------------------------------------------------------------
 (* cr-sqlite merge of one column change into a cell *)
@@ -307,16 +309,19 @@ Init == /\ txlog = [n \in Nodes |-> <<>>]
         /\ msgs = {}
 
 RECURSIVE WriteKeys(_, _, _, _, _)
-(* the statements of a local transaction, in order; returns [cells, tx] *)
+(* the statements of a local transaction, in order; returns [cells, tx].  Every write of a cell bumps its   *)
+(* col_version and takes the next sequence number; a later write of the same cell in the same transaction   *)
+(* replaces the earlier one, whose sequence number stays unused (a hole, recorded with key 0)                 *)
 WriteKeys(cells, n, v, ks, i) ==
     IF i > Len(ks) THEN [cells |-> cells, tx |-> <<>>]
     ELSE LET k == ks[i]
              cv == cells[k].cv + 1
              val == n * 1000 + v
              r == WriteKeys([cells EXCEPT ![k] = [cv |-> cv, val |-> val, site |-> n, dbv |-> v, seq |-> i - 1]], n, v, ks, i + 1)
-         IN [cells |-> r.cells, tx |-> <<[key |-> k, cv |-> cv, val |-> val]>> \o r.tx]
+             again == \E j \in (i + 1)..Len(ks) : ks[j] = k
+         IN [cells |-> r.cells, tx |-> <<IF again THEN [key |-> 0, cv |-> 0, val |-> 0] ELSE [key |-> k, cv |-> cv, val |-> val]>> \o r.tx]
 
-(* api_v1_transactions with statements writing the distinct keys ks *)
+(* api_v1_transactions with statements writing the keys ks (a key may be written more than once) *)
 LocalTx(n, ks) ==
     /\ Len(txlog[n]) < MaxTx
     /\ LET v == Len(txlog[n]) + 1
@@ -325,7 +330,8 @@ LocalTx(n, ks) ==
           /\ nodes' = [nodes EXCEPT ![n].cells = w.cells,
                                     ![n].rows[n].dbv = v,
                                     ![n].book[n].max = v]
-          /\ msgs' = msgs \cup {[k |-> "full", a |-> n, v |-> v, lo |-> 0, hi |-> Len(ks) - 1, last |-> Len(ks) - 1, seqs |-> 0..(Len(ks) - 1)]}
+          /\ msgs' = msgs \cup {[k |-> "full", a |-> n, v |-> v, lo |-> 0, hi |-> Len(ks) - 1, last |-> Len(ks) - 1,
+                                  seqs |-> {i - 1 : i \in {j \in 1..Len(ks) : w.tx[j].key # 0}}]}
 
 (* a request that fails at some statement, or changes nothing: no effect whatsoever (C07) *)
 LocalNoEffect(n) == UNCHANGED vars
@@ -369,7 +375,7 @@ Restart(n) ==
     /\ nodes' = [nodes EXCEPT ![n] = RestartF(@, n)]
     /\ UNCHANGED <<txlog, msgs>>
 
-KeySeqs == UNION {{ks \in [1..l -> Keys] : \A i, j \in 1..l : i # j => ks[i] # ks[j]} : l \in 1..MaxKeysPerTx}
+KeySeqs == UNION {[1..l -> Keys] : l \in 1..MaxKeysPerTx}
 Batches == UNION {[1..l -> msgs] : l \in 1..MaxBatch}
 AllNeeds(c, s, a) == Needs(Adv(nodes[c].book[a]), Adv(nodes[s].book[a]))
 
@@ -386,9 +392,9 @@ Spec == Init /\ [][Next]_vars
 -----------------------------------------------------------------------------
 (* Properties *)
 AllChanges == {<<a, v, s>> : a \in Nodes, v \in V, s \in 0..(MaxKeysPerTx - 1)}
-Exists(c) == c[2] <= Len(txlog[c[1]]) /\ c[3] <= LastSeq(c[1], c[2])
+Exists(c) == c[2] <= Len(txlog[c[1]]) /\ c[3] \in SeqsOf(c[1], c[2])
 (* a change that no acknowledged change dominates on its cell *)
-Winner(a, v, s) == \A b \in Nodes : \A w \in 1..Len(txlog[b]) : \A t \in 0..LastSeq(b, w) :
+Winner(a, v, s) == \A b \in Nodes : \A w \in 1..Len(txlog[b]) : \A t \in SeqsOf(b, w) :
     Change(b, w, t).key = Change(a, v, s).key =>
         ~Wins(Change(b, w, t), [cv |-> Change(a, v, s).cv, val |-> Change(a, v, s).val]) \/ <<b, w, t>> = <<a, v, s>>
 RowSeqs(rw, v) == UNION {r.s..r.e : r \in {q \in rw.seqs : q.v = v}}
@@ -399,12 +405,12 @@ AdvHeld(bk) == ((1..bk.max) \ Adv(bk).need) \ {p.v : p \in Adv(bk).partial}
 (* C01: a node shows only values some acknowledged transaction produced, with that transaction's CRDT version *)
 C01_NoInvention == \A n \in Nodes, k \in Keys :
     LET c == nodes[n].cells[k] IN c.cv # 0 =>
-        /\ c.dbv <= Len(txlog[c.site]) /\ c.seq <= LastSeq(c.site, c.dbv)
+        /\ c.dbv <= Len(txlog[c.site]) /\ c.seq \in SeqsOf(c.site, c.dbv)
         /\ Change(c.site, c.dbv, c.seq) = [key |-> k, cv |-> c.cv, val |-> c.val, site |-> c.site, dbv |-> c.dbv, seq |-> c.seq]
 (* C01 (safety core of convergence): a node that claims to hold a version has every change of it that has not lost globally *)
 C01_NoLoss == \A n \in Nodes : \A a \in Nodes \ {n} : \A v \in V :
     (v <= Len(txlog[a]) /\ v \in AdvHeld(nodes[n].book[a]) /\ v \notin FullyBuffered(nodes[n].rows[a]) /\ <<a, v>> \notin nodes[n].pendApply)
-        => \A s \in 0..LastSeq(a, v) : Winner(a, v, s) =>
+        => \A s \in SeqsOf(a, v) : Winner(a, v, s) =>
               LET ch == Change(a, v, s) IN nodes[n].cells[ch.key] = [cv |-> ch.cv, val |-> ch.val, site |-> a, dbv |-> v, seq |-> s]
 (* C01: when nobody needs anything from anybody, all nodes hold the merge of all acknowledged transactions *)
 Quiescent == /\ \A c, s \in Nodes, a \in Nodes : (c # s /\ a # c) => AllNeeds(c, s, a) = {}
@@ -412,7 +418,7 @@ Quiescent == /\ \A c, s \in Nodes, a \in Nodes : (c # s /\ a # c) => AllNeeds(c,
              /\ \A n, a \in Nodes : Len(txlog[a]) > 0 => nodes[n].book[a].max = Len(txlog[a])
 C01_Converged == Quiescent => \A n, m \in Nodes : nodes[n].cells = nodes[m].cells
 C01_MergeOfAll == Quiescent => \A n \in Nodes, a \in Nodes, v \in V : v <= Len(txlog[a]) =>
-                     \A s \in 0..LastSeq(a, v) : Winner(a, v, s) => nodes[n].cells[Change(a, v, s).key].val = Change(a, v, s).val
+                     \A s \in SeqsOf(a, v) : Winner(a, v, s) => nodes[n].cells[Change(a, v, s).key].val = Change(a, v, s).val
 
 (* C02 in context *)
 C02_HeldIsDurable == \A n, a \in Nodes : a # n => AdvHeld(nodes[n].book[a]) \subseteq (nodes[n].merged[a] \cup FullyBuffered(nodes[n].rows[a]))
@@ -456,7 +462,7 @@ C05_Serve == \A s, a \in Nodes : \A need \in ProbeNeeds(s, a) :
 (* C06/C07: acknowledged local transactions are present and never listed as gaps *)
 C07_OwnHead == \A n \in Nodes : /\ nodes[n].book[n].max = Len(txlog[n]) /\ nodes[n].book[n].needed = {}
                                 /\ nodes[n].rows[n].dbv = Len(txlog[n])
-C06_AckedPresent == \A n \in Nodes, v \in V : v <= Len(txlog[n]) => \A s \in 0..LastSeq(n, v) :
+C06_AckedPresent == \A n \in Nodes, v \in V : v <= Len(txlog[n]) => \A s \in SeqsOf(n, v) :
     LET ch == Change(n, v, s) c == nodes[n].cells[ch.key] IN
         c = [cv |-> ch.cv, val |-> ch.val, site |-> n, dbv |-> v, seq |-> s] \/ Wins([cv |-> c.cv, val |-> c.val], [cv |-> ch.cv, val |-> ch.val])
 =============================================================================
